@@ -942,3 +942,9 @@ impl RuntimeStackTrait<Val> for RuntimeStack {
         }
     }
 }
+
+#[cfg(feature = "verif-hooks")]
+#[path = "verif_hooks.rs"]
+mod verif_hooks;
+#[cfg(feature = "verif-hooks")]
+pub use verif_hooks::VerifProbe;
